@@ -73,6 +73,53 @@ const C10_CORPUS: [(&[&str], &str); 22] = [
     (&["10 DEF FNI#(N#)=N#+1", "20 DEF FNO#(N#)=FNI#(N#*10)+N#", "30 PRINT FNO#(2)", "RUN"], " 23 \nREADY.\n<STOPPED>"),
 ];
 
+/// READ converts each constant to the receiving variable's type exactly as an assignment would: the same program
+/// once with DATA + READ and once with assignments must print the same, errors included.
+fn c09_typed_read_case(rng: &mut Rng, ctx: &mut Ctx) {
+    const CONSTS: [&str; 26] = [
+        "0", "1", "-1", "1.5", "-2.5", "2.99999", "32767", "32768", "-32768", "-32769", "40000", "1E10", "-1E10", "1E38", "1D300",
+        "123456789", "1.23456789012345", "0.1", "&H7FFF", "&17", "\"text\"", "\"a,b\"", "\"\"", "\" pad \"", "\"12\"", "3.4E38",
+    ];
+    const TARGETS: [&str; 9] = ["A%", "B!", "C#", "D", "E$", "F%(2)", "G#(1,1)", "H$(3)", "K(0)"];
+    let n = rng.range(1, 4) as usize;
+    let ts: Vec<&str> = (0..n).map(|_| *rng.pick(&TARGETS)).collect();
+    let cs: Vec<&str> = (0..n).map(|_| *rng.pick(&CONSTS)).collect();
+    let show = format!("PRINT {}", ts.iter().map(|t| format!("\"[\";{};\"]\"", t)).collect::<Vec<_>>().join(";"));
+    let with_read = vec![format!("10 DATA {}", cs.join(",")), format!("20 READ {}", ts.join(",")), format!("30 {}", show)];
+    let with_let = vec![
+        "10 REM".to_string(),
+        format!("20 {}", ts.iter().zip(cs.iter()).map(|(t, c)| format!("{}={}", t, c)).collect::<Vec<_>>().join(":")),
+        format!("30 {}", show),
+    ];
+    let text = format!("{}\n--- as assignments ---\n{}", with_read.join("\n"), with_let.join("\n"));
+    mon::journal(&text);
+    let run = |lines: &[String]| -> (String, String) {
+        let mut s = crate::drive::Session::new();
+        s.drain(16);
+        for l in lines {
+            s.command(l, 16);
+        }
+        let mark = s.mark();
+        s.command("RUN", 400);
+        // which of the statement's variables were stored before an error stopped it is part of the comparison
+        let m2 = s.mark();
+        s.command(&show, 64);
+        (crate::drive::transcript(&s.log[mark..m2], crate::drive::Norm::STD), crate::drive::transcript(s.events_since(m2), crate::drive::Norm::STD))
+    };
+    let (a, a2) = run(&with_read);
+    let (b, b2) = run(&with_let);
+    ctx.eval(&text, true);
+    ctx.count("typed_read_programs");
+    if a != b || a2 != b2 {
+        ctx.violation(
+            "read-conversion",
+            "read:conversion",
+            &format!("READ gives {:?} then {:?}; the same values assigned give {:?} then {:?}", a, a2, b, b2),
+            &text,
+        );
+    }
+}
+
 fn c10_corpus_case(i: usize, ctx: &mut Ctx) {
     let (script, want) = C10_CORPUS[i];
     let text = script.join("\n");
@@ -190,6 +237,9 @@ impl Prop for ModelProg {
     fn run_case(&mut self, _idx: u64, rng: &mut Rng, ctx: &mut Ctx) {
         if self.id == "C10" && (_idx as usize) < C10_CORPUS.len() {
             return c10_corpus_case(_idx as usize, ctx);
+        }
+        if self.id == "C09" && _idx % 16 == 5 {
+            return c09_typed_read_case(rng, ctx);
         }
         let o = self.opts(rng);
         let mut p = gen::generate(rng, o);
